@@ -244,6 +244,12 @@ def streams(tier, rng, P, only=None, cases=None):
               ("FUNCTION F(A){\n IF(A>1){ RETURN(1) } /* c */\n ELSE{ RETURN(2) }\n}\nPRINT(F(5)) PRINT(F(0))", "(((fn F ((A 0)) ((if (b 7 A 1) ((ret 1)) ((ret 2)))))) ((print (call F (5))) (print (call F (0)))))")]
         for j, (src, sx) in enumerate(ML):
             cs.append(dict(req="run " + hx(src), src=src, show=src, sexp=sx, nt=1, key="ml%d" % j, multiline=True))
+            # … and the same layouts with Windows line ends
+            src2 = src.replace("\n", "\r\n")
+            cs.append(dict(req="run " + hx(src2), src=src2, show=repr(src2), sexp=sx, nt=1, key="mlcr%d" % j, multiline=True))
+        for j, (src, sx) in enumerate([("FUNCTION Twice(XQ)\r\n{ RETURN(XQ*2) }\r\nPRINT(Twice(4))\r\n", "(((fn Twice ((XQ _)) ((ret (b 0 XQ 2))))) ((print (call Twice (4)))))"),
+                                       ("INT A=1\r\nWHILE(A<3)\r\n{ A++ }\r\nPRINT(A)", "(() ((decl A 1) (while (b 9 A 3) ((inc A 1))) (print A)))")]):
+            cs.append(dict(req="run " + hx(src), src=src, show=repr(src), sexp=sx, nt=1, key="mlcrf%d" % j, multiline=True))
         return cs
     def model(c, st, f): return ["script " + hx(c["sexp"])]
     def judge(c, impl, m):
